@@ -5,7 +5,7 @@
    code before it), Run/Loader.v (CompileAndRun with the SHA-256 comparison
    modelled as identity of source texts; [compile] and [vmstep] are oracles). *)
 From V Require Import Metrics.StoreAdd Run.Loader Proofs.StoreAddProofs Proofs.LoaderIsolation Proofs.LoaderReload
-  Proofs.LoaderReloadLoad.
+  Proofs.LoaderReloadLoad Proofs.LoaderInvariants.
 Local Open Scope N_scope.
 
 (* reloading the text that is already running changes nothing at all *)
@@ -54,6 +54,45 @@ Theorem C14_keep_decl_keeps_data :
         lv_find ls (obj_lvs h' o') = Some (mkslv ls (sl_datum x) (sl_expiry x)) /\
         forall dd, nlookup (sl_datum x) (ph_data h) = Some dd -> nlookup (sl_datum x) (ph_data h') = Some dd.
 Proof. exact (load_keeps_data true). Qed.
+
+(* The hypotheses of C14_keep_decl_keeps_data are invariants: in every state
+   reachable from the empty one by loads (any text), unloads, lines and GC
+   passes, for every compiler and VM behaviour, object ids are fresh, label
+   tuples within a metric are pairwise distinct, exported and running metric
+   objects are allocated, and a bucket holds at most one entry per (program,
+   type, source position). *)
+Theorem C14_reachable_wf :
+  forall (c1 c2 omit : bool) compile vmstep ops,
+    wf (run_from c1 c2 omit compile vmstep st_empty ops).
+Proof. intros. apply reachable_wf, wf_empty. Qed.
+
+(* Hence, after EVERY history: a successful reload of p whose new metric table
+   holds, with the same descriptor d (kind, exported name, type, keys, source
+   position), a declaration whose previous object o is the one the store
+   exports, and whose other exported names differ from d's, keeps every cell of
+   that metric -- datum object (value, time) and pending expiry -- and swaps the
+   store entry without leaving a duplicate.  (The only guard left is that the
+   previous version's object is the exported one: that fails only after a
+   refused registration, the known finding.) *)
+Theorem C14_keep_decl_keeps_data_reachable :
+  forall (c2 omit : bool) compile vmstep ops p src st' o d,
+    let st := run_from true c2 omit compile vmstep st_empty ops in
+    load_r true c2 omit compile st p src = (st', LLoaded) ->
+    In (mkentry p o d) (entries_of (st_index st) (d_name d)) ->
+    d_hidden d = false ->
+    forall hd' ms1 o' ms2,
+      ps_handle (getp p st') = Some hd' -> h_objs hd' = ms1 ++ (o', d) :: ms2 ->
+      (forall o2 d2, In (o2, d2) (ms1 ++ ms2) -> d_hidden d2 = false -> d_name d2 <> d_name d) ->
+      let h := ps_heap (getp p st) in
+      let h' := ps_heap (getp p st') in
+      h_src hd' = src /\
+      (exists pre post,
+         entries_of (st_index st) (d_name d) = pre ++ mkentry p o d :: post /\
+         entries_of (st_index st') (d_name d) = pre ++ post ++ [mkentry p o' d]) /\
+      forall ls x, lv_find ls (obj_lvs h o) = Some x ->
+        lv_find ls (obj_lvs h' o') = Some (mkslv ls (sl_datum x) (sl_expiry x)) /\
+        forall dd, nlookup (sl_datum x) (ph_data h) = Some dd -> nlookup (sl_datum x) (ph_data h') = Some dd.
+Proof. exact keep_decl_reachable. Qed.
 
 (* the same for the single Store.Add call that registers (o', d): fewer
    hypotheses (no freshness of ids needed) *)
@@ -178,6 +217,8 @@ Proof. vm_compute. repeat split; reflexivity. Qed.
 Print Assumptions C14_identical_noop.
 Print Assumptions C14_keep_decl_keeps_data.
 Print Assumptions C14_keep_load_applies.
+Print Assumptions C14_reachable_wf.
+Print Assumptions C14_keep_decl_keeps_data_reachable.
 Print Assumptions C14_failed_compile_noop.
 Print Assumptions C14_keep_decl_keeps_data_partial.
 Print Assumptions C14_no_dup_series_partial.
